@@ -94,6 +94,11 @@ func newObjectTemplate(class string) *corev1alpha1.ObjectTemplate {
 	case "secretSrc":
 		// the required source is a Secret: a kind the template's own target watch does not cover
 		t.Spec.Sources[0].Kind = "Secret"
+	case "widgetSrc":
+		// the required source is an object with a generation; the value is read from its STATUS (no generation bump on change)
+		t.Spec.Sources[0].APIVersion = "example.verif/v1"
+		t.Spec.Sources[0].Kind = "Widget"
+		t.Spec.Sources[0].Items = []corev1alpha1.ObjectTemplateSourceItem{{Key: ".status.a", Destination: ".a"}}
 	}
 	return t
 }
@@ -112,10 +117,19 @@ func srcAKey(class string) Key {
 	if class == "secretSrc" {
 		return Key{"", "Secret", NS, "src-a"}
 	}
+	if class == "widgetSrc" {
+		return Key{"example.verif", "Widget", NS, "src-a"}
+	}
 	return KCM("src-a")
 }
 
 func srcAWith(class, val string) *unstructured.Unstructured {
+	if class == "widgetSrc" {
+		u := Widget("src-a", 1)
+		u.SetNamespace(NS)
+		u.Object["status"] = map[string]any{"a": val}
+		return u
+	}
 	if class == "secretSrc" {
 		u := Obj(gvkSecret, NS, "src-a")
 		u.Object["data"] = map[string]any{"a": val}
@@ -187,7 +201,7 @@ func (tw *tmWorld) runPass(k Key) {
 	delete(tw.timers, k)
 	// snapshot of every object the pass may touch, to feed its own writes back as triggers
 	keys := []Key{KCM("src-a"), KCM("src-b"), KCM("out"), {"", "ConfigMap", "other", "src-a"}, {"", "ConfigMap", "other", "out"},
-		{"", "Secret", NS, "src-a"}, {"", "Secret", NS, "src-z"}, KCM("out0")}
+		{"", "Secret", NS, "src-a"}, {"", "Secret", NS, "src-z"}, KCM("out0"), {"example.verif", "Widget", NS, "src-a"}}
 	before := map[Key]map[string]any{}
 	for _, x := range keys {
 		before[x] = w.Store.Snapshot(x)
@@ -249,7 +263,7 @@ func cmWith(name, key, val string) *unstructured.Unstructured {
 
 func init() {
 	extraDrivers["template-walk"] = func(w *World, _ *flag.FlagSet, a driverArgs) int {
-		classes := []string{"ok", "ok", "ok2", "optionalFirst", "bad", "targetOtherNS", "sourceOtherNS", "secretSrc", "secretSrc"}
+		classes := []string{"ok", "ok", "ok2", "optionalFirst", "bad", "targetOtherNS", "sourceOtherNS", "secretSrc", "secretSrc", "widgetSrc", "widgetSrc"}
 		for i := 0; i < a.n; i++ {
 			if i%a.shards != a.shard {
 				continue
@@ -293,7 +307,13 @@ func init() {
 						tw.env(k, func() { w.EnvCreate(srcAWith(class, v)) })
 					} else {
 						tw.env(k, func() {
-							w.EnvMutate("EnvEdit", k, map[string]any{"tag": v}, func(m map[string]any) { m["data"] = map[string]any{"a": v} })
+							w.EnvMutate("EnvEdit", k, map[string]any{"tag": v}, func(m map[string]any) {
+								if class == "widgetSrc" {
+									m["status"] = map[string]any{"a": v} // status only: the generation does not move
+								} else {
+									m["data"] = map[string]any{"a": v}
+								}
+							})
 						})
 					}
 				case 2, 3:
